@@ -28,6 +28,8 @@ import (
 	abci "github.com/cometbft/cometbft/abci/types"
 	sdk "github.com/cosmos/cosmos-sdk/types"
 	banktypes "github.com/cosmos/cosmos-sdk/x/bank/types"
+	distrtypes "github.com/cosmos/cosmos-sdk/x/distribution/types"
+	stakingtypes "github.com/cosmos/cosmos-sdk/x/staking/types"
 
 	"github.com/osmosis-labs/osmosis/osmomath"
 	"github.com/osmosis-labs/osmosis/v31/app"
@@ -39,9 +41,14 @@ import (
 	incentivestypes "github.com/osmosis-labs/osmosis/v31/x/incentives/types"
 	lockuptypes "github.com/osmosis-labs/osmosis/v31/x/lockup/types"
 	minttypes "github.com/osmosis-labs/osmosis/v31/x/mint/types"
+	poolincentivestypes "github.com/osmosis-labs/osmosis/v31/x/pool-incentives/types"
 	poolmanagertypes "github.com/osmosis-labs/osmosis/v31/x/poolmanager/types"
+	protorevtypes "github.com/osmosis-labs/osmosis/v31/x/protorev/types"
+	smartaccounttypes "github.com/osmosis-labs/osmosis/v31/x/smart-account/types"
 	sftypes "github.com/osmosis-labs/osmosis/v31/x/superfluid/types"
 	tftypes "github.com/osmosis-labs/osmosis/v31/x/tokenfactory/types"
+	txfeestypes "github.com/osmosis-labs/osmosis/v31/x/txfees/types"
+	valsettypes "github.com/osmosis-labs/osmosis/v31/x/valset-pref/types"
 	"github.com/osmosis-labs/osmosis/v31/zzverif/chain"
 	"github.com/osmosis-labs/osmosis/v31/zzverif/vk"
 )
@@ -134,6 +141,11 @@ func c19Genesis(a *app.OsmosisApp, gs app.GenesisState) {
 	cdc.MustUnmarshalJSON(gs[minttypes.ModuleName], &mg)
 	mg.Params.ReductionPeriodInEpochs = 2
 	gs[minttypes.ModuleName] = cdc.MustMarshalJSON(&mg)
+	// protorev: an admin the history can act as (hot routes, developer account)
+	var prg protorevtypes.GenesisState
+	cdc.MustUnmarshalJSON(gs[protorevtypes.ModuleName], &prg)
+	prg.Params.Admin = chain.DetAccount("acc", 7).Addr.String()
+	gs[protorevtypes.ModuleName] = cdc.MustMarshalJSON(&prg)
 }
 
 type c19SwitchWriter struct{ w *os.File }
@@ -216,6 +228,38 @@ func c19FinalState(ch *chain.Chain, path string) {
 		} else {
 			out[fmt.Sprintf("query/gauge/%d", g.Id)] = g.String()
 		}
+	}
+	for _, acc := range ch.Accs {
+		if vs, found := ch.App.ValidatorSetPreferenceKeeper.GetValidatorSetPreference(qctx, acc.Addr.String()); found {
+			out["query/valset/"+acc.Addr.String()] = vs.String()
+		}
+		if dels, err := ch.App.StakingKeeper.GetDelegatorDelegations(qctx, acc.Addr, 100); err == nil {
+			for _, dl := range dels {
+				out["query/delegation/"+acc.Addr.String()+"/"+dl.ValidatorAddress] = dl.Shares.String()
+			}
+		}
+		if ps, err := ch.App.ConcentratedLiquidityKeeper.GetUserPositions(qctx, acc.Addr, 0); err == nil {
+			for _, p := range ps {
+				cctx, _ := qctx.CacheContext()
+				sr, e1 := ch.App.ConcentratedLiquidityKeeper.GetClaimableSpreadRewards(cctx, p.PositionId)
+				inc, forf, e2 := ch.App.ConcentratedLiquidityKeeper.GetClaimableIncentives(cctx, p.PositionId)
+				out[fmt.Sprintf("query/position/%d", p.PositionId)] = fmt.Sprintf("%s|%v|%v|%v|%v|%v", p.String(), sr, e1, inc, forf, e2)
+			}
+		}
+		if au, err := ch.App.SmartAccountKeeper.GetAuthenticatorDataForAccount(qctx, acc.Addr); err == nil {
+			for _, x := range au {
+				out[fmt.Sprintf("query/authenticator/%s/%d", acc.Addr.String(), x.Id)] = x.String()
+			}
+		}
+	}
+	for _, ft := range ch.App.TxFeesKeeper.GetFeeTokens(qctx) {
+		out["query/feetoken/"+ft.Denom] = ft.String()
+	}
+	if di := ch.App.PoolIncentivesKeeper.GetDistrInfo(qctx); true {
+		out["query/distrinfo"] = di.String()
+	}
+	for _, d := range []string{"uosmo", "foo", "bar", "baz"} {
+		out["query/supply/"+d] = ch.App.BankKeeper.GetSupply(qctx, d).String()
 	}
 	out["query/supply/uosmo"] = ch.App.BankKeeper.GetSupply(qctx, "uosmo").String()
 	out["query/supply_with_offset/uosmo"] = ch.App.BankKeeper.GetSupplyWithOffset(qctx, "uosmo").String()
@@ -309,7 +353,170 @@ func (g *c19Gen) randomBlock() ([][]byte, []string) {
 		a := g.acc(ai)
 		var msg sdk.Msg
 		d := ""
-		switch r.Intn(19) {
+		kind := r.Intn(19)
+		if r.Intn(5) < 2 {
+			kind = 19 + r.Intn(13)
+		}
+		switch kind {
+		case 19: // validator-set preference
+			w := int64(1 + r.Intn(99))
+			prefs := []valsettypes.ValidatorPreference{{ValOperAddress: ch.Vals[0].OpAddr.String(), Weight: osmomath.NewDecWithPrec(w, 2)}, {ValOperAddress: ch.Vals[1%len(ch.Vals)].OpAddr.String(), Weight: osmomath.NewDecWithPrec(100-w, 2)}}
+			if r.Intn(3) == 0 {
+				msg, d = &valsettypes.MsgRedelegateValidatorSet{Delegator: a.Addr.String(), Preferences: prefs}, "valset redelegate"
+			} else {
+				msg, d = &valsettypes.MsgSetValidatorSetPreference{Delegator: a.Addr.String(), Preferences: prefs}, "valset set"
+			}
+		case 20:
+			msg, d = &valsettypes.MsgDelegateToValidatorSet{Delegator: a.Addr.String(), Coin: c("uosmo", 1000+r.I64n(3000000000))}, "valset delegate"
+		case 21:
+			if r.Intn(8) == 0 {
+				msg, d = &valsettypes.MsgUndelegateFromValidatorSet{Delegator: a.Addr.String(), Coin: c("uosmo", 1000+r.I64n(30000000))}, "valset undelegate"
+			} else {
+				msg, d = &valsettypes.MsgUndelegateFromRebalancedValidatorSet{Delegator: a.Addr.String(), Coin: c("uosmo", 1000+r.I64n(30000000))}, "valset undelegate rebalanced"
+			}
+		case 22:
+			msg, d = &valsettypes.MsgWithdrawDelegationRewards{Delegator: a.Addr.String()}, "valset withdraw rewards"
+		case 23: // plain staking and distribution
+			v := ch.Vals[r.Intn(len(ch.Vals))].OpAddr.String()
+			switch r.Intn(4) {
+			case 0, 1:
+				msg, d = &stakingtypes.MsgDelegate{DelegatorAddress: a.Addr.String(), ValidatorAddress: v, Amount: c("uosmo", 1000+r.I64n(5000000000))}, "stake"
+			case 2:
+				msg, d = &stakingtypes.MsgUndelegate{DelegatorAddress: a.Addr.String(), ValidatorAddress: v, Amount: c("uosmo", 1000+r.I64n(50000000))}, "unstake"
+			default:
+				msg, d = &distrtypes.MsgWithdrawDelegatorReward{DelegatorAddress: a.Addr.String(), ValidatorAddress: v}, "withdraw staking reward"
+			}
+		case 24: // token factory administration
+			if g.tfDenom == "" {
+				continue
+			}
+			am, err := ch.App.TokenFactoryKeeper.GetAuthorityMetadata(ch.Ctx, g.tfDenom)
+			if err != nil || am.Admin == "" {
+				continue
+			}
+			admIdx := -1
+			for i := range ch.Accs {
+				if ch.Accs[i].Addr.String() == am.Admin {
+					admIdx = i
+				}
+			}
+			if admIdx < 0 || (used[admIdx] && admIdx != ai) {
+				continue
+			}
+			used[admIdx] = true
+			adm := g.acc(admIdx)
+			switch r.Intn(3) {
+			case 0:
+				msg, d = &tftypes.MsgChangeAdmin{Sender: adm.Addr.String(), Denom: g.tfDenom, NewAdmin: g.acc(r.Intn(8)).Addr.String()}, "tf change admin"
+			case 1:
+				exp := uint32(1 + r.Intn(18))
+				msg, d = &tftypes.MsgSetDenomMetadata{Sender: adm.Addr.String(), Metadata: banktypes.Metadata{Description: fmt.Sprintf("tok v%d", r.Intn(1000)), Base: g.tfDenom, Display: "tok", Name: "tok", Symbol: "TOK",
+					DenomUnits: []*banktypes.DenomUnit{{Denom: g.tfDenom, Exponent: 0}, {Denom: "tok", Exponent: exp}}}}, "tf metadata"
+			default:
+				msg, d = &tftypes.MsgMint{Sender: adm.Addr.String(), Amount: c(g.tfDenom, 1+r.I64n(1000000)), MintToAddress: g.acc(r.Intn(8)).Addr.String()}, "tf mint"
+			}
+			txs = append(txs, g.sign(adm, msg))
+			ds = append(ds, d)
+			continue
+		case 25: // concentrated positions: add, transfer
+			ps, _ := ch.App.ConcentratedLiquidityKeeper.GetUserPositions(ch.Ctx, a.Addr, 3)
+			if len(ps) == 0 {
+				continue
+			}
+			p := ps[r.Intn(len(ps))]
+			if r.Intn(3) > 0 {
+				msg, d = &cltypes.MsgAddToPosition{PositionId: p.PositionId, Sender: a.Addr.String(), Amount0: sdkmath.NewInt(1000 + r.I64n(900000000)), Amount1: sdkmath.NewInt(1000 + r.I64n(900000000)), TokenMinAmount0: sdkmath.ZeroInt(), TokenMinAmount1: sdkmath.ZeroInt()}, "cl add"
+			} else {
+				msg, d = &cltypes.MsgTransferPositions{PositionIds: []uint64{p.PositionId}, Sender: a.Addr.String(), NewOwner: g.acc(r.Intn(8)).Addr.String()}, "cl transfer"
+			}
+		case 26: // external incentives on the concentrated pool; more lock gauges
+			if r.Bool() {
+				msg, d = &incentivestypes.MsgCreateGauge{IsPerpetual: r.Intn(3) == 0, Owner: a.Addr.String(), DistributeTo: lockuptypes.QueryCondition{LockQueryType: lockuptypes.NoLock, Duration: []time.Duration{time.Nanosecond, time.Minute, time.Hour}[r.Intn(3)]}, Coins: sdk.NewCoins(c([]string{"uosmo", "foo"}[r.Intn(2)], 100000+r.I64n(9000000000))), StartTime: ch.Ctx.BlockTime(), NumEpochsPaidOver: uint64(1 + r.Intn(4)), PoolId: 3}, "gauge nolock"
+				if msg.(*incentivestypes.MsgCreateGauge).IsPerpetual {
+					msg.(*incentivestypes.MsgCreateGauge).NumEpochsPaidOver = 1
+				}
+			} else {
+				msg, d = &incentivestypes.MsgCreateGauge{IsPerpetual: false, Owner: a.Addr.String(), DistributeTo: lockuptypes.QueryCondition{LockQueryType: lockuptypes.ByDuration, Denom: "gamm/pool/1", Duration: []time.Duration{time.Hour, 3 * time.Hour, 7 * time.Hour}[r.Intn(3)]},
+					Coins: sdk.NewCoins(c("uosmo", 100000+r.I64n(900000000)), c("foo", 100000+r.I64n(900000000))), StartTime: ch.Ctx.BlockTime().Add(time.Duration(r.I64n(int64(2 * time.Hour)))), NumEpochsPaidOver: uint64(1 + r.Intn(5))}, "gauge lock 2 denoms"
+			}
+		case 27: // the remaining classic-pool messages, stableswap and multi-asset pools
+			switch r.Intn(5) {
+			case 0:
+				msg, d = &gammtypes.MsgJoinSwapShareAmountOut{Sender: a.Addr.String(), PoolId: 1, TokenInDenom: "foo", ShareOutAmount: gammtypes.OneShare.QuoRaw(10 + r.I64n(1000)), TokenInMaxAmount: sdkmath.NewIntWithDecimal(1, 30)}, "join share out"
+			case 1:
+				msg, d = &gammtypes.MsgExitSwapExternAmountOut{Sender: a.Addr.String(), PoolId: 1, TokenOut: c("uosmo", 1000+r.I64n(1000000)), ShareInMaxAmount: sdkmath.NewIntWithDecimal(1, 30)}, "exit extern out"
+			case 2:
+				msg, d = &gammtypes.MsgJoinPool{Sender: a.Addr.String(), PoolId: 2, ShareOutAmount: gammtypes.OneShare.QuoRaw(1 + r.I64n(100)), TokenInMaxs: sdk.NewCoins(c("bar", 900000000000), c("foo", 900000000000))}, "join stableswap"
+			case 3:
+				msg, d = &gammtypes.MsgJoinPool{Sender: a.Addr.String(), PoolId: 4, ShareOutAmount: gammtypes.OneShare.QuoRaw(1 + r.I64n(100)), TokenInMaxs: sdk.NewCoins()}, "join 3-asset"
+			default:
+				id := uint64([]int{2, 4}[r.Intn(2)])
+				have := ch.Bal(a.Addr, fmt.Sprintf("gamm/pool/%d", id))
+				if !have.IsPositive() {
+					continue
+				}
+				msg, d = &gammtypes.MsgExitPool{Sender: a.Addr.String(), PoolId: id, ShareInAmount: sdkmath.MaxInt(sdkmath.OneInt(), have.QuoRaw(2+r.I64n(20))), TokenOutMins: sdk.NewCoins()}, "exit other pool"
+			}
+		case 28: // split exact-out; lockup partial unlock / unlock all
+			switch r.Intn(3) {
+			case 0:
+				msg, d = &poolmanagertypes.MsgSplitRouteSwapExactAmountOut{Sender: a.Addr.String(), TokenOutDenom: "uosmo", TokenInMaxAmount: sdkmath.NewIntWithDecimal(1, 30), Routes: []poolmanagertypes.SwapAmountOutSplitRoute{
+					{Pools: []poolmanagertypes.SwapAmountOutRoute{{PoolId: 3, TokenInDenom: "bar"}}, TokenOutAmount: sdkmath.NewInt(1000 + r.I64n(9000000))}, {Pools: []poolmanagertypes.SwapAmountOutRoute{{PoolId: 2, TokenInDenom: "bar"}, {PoolId: 1, TokenInDenom: "foo"}}, TokenOutAmount: sdkmath.NewInt(1000 + r.I64n(9000000))}}}, "split out"
+			case 1:
+				ls := ch.App.LockupKeeper.GetAccountPeriodLocks(ch.Ctx, a.Addr)
+				if len(ls) == 0 {
+					continue
+				}
+				l := ls[r.Intn(len(ls))]
+				if len(l.Coins) != 1 || !l.Coins[0].Amount.GT(sdkmath.NewInt(3)) {
+					continue
+				}
+				msg, d = &lockuptypes.MsgBeginUnlocking{Owner: a.Addr.String(), ID: l.ID, Coins: sdk.NewCoins(sdk.NewCoin(l.Coins[0].Denom, l.Coins[0].Amount.QuoRaw(2+r.I64n(3))))}, "partial unlock"
+			default:
+				msg, d = &lockuptypes.MsgBeginUnlockingAll{Owner: a.Addr.String()}, "unlock all"
+			}
+		case 29: // smart-account authenticators
+			auths, _ := ch.App.SmartAccountKeeper.GetAuthenticatorDataForAccount(ch.Ctx, a.Addr)
+			if len(auths) > 0 && r.Bool() {
+				msg, d = &smartaccounttypes.MsgRemoveAuthenticator{Sender: a.Addr.String(), Id: auths[r.Intn(len(auths))].Id}, "remove authenticator"
+			} else if r.Bool() {
+				msg, d = &smartaccounttypes.MsgAddAuthenticator{Sender: a.Addr.String(), AuthenticatorType: "SignatureVerification", Data: g.acc(r.Intn(8)).Priv.PubKey().Bytes()}, "add authenticator sig"
+			} else {
+				msg, d = &smartaccounttypes.MsgAddAuthenticator{Sender: a.Addr.String(), AuthenticatorType: "MessageFilter", Data: []byte(`{"@type":"/cosmos.bank.v1beta1.MsgSend"}`)}, "add authenticator filter"
+			}
+		case 30: // superfluid through a concentrated full-range position
+			if r.Bool() {
+				msg, d = &sftypes.MsgCreateFullRangePositionAndSuperfluidDelegate{Sender: a.Addr.String(), Coins: sdk.NewCoins(c("bar", 100000+r.I64n(2000000000)), c("uosmo", 100000+r.I64n(1000000000))), ValAddr: ch.Vals[r.Intn(len(ch.Vals))].OpAddr.String(), PoolId: 3}, "superfluid cl-create"
+			} else {
+				ps, _ := ch.App.ConcentratedLiquidityKeeper.GetUserPositions(ch.Ctx, a.Addr, 3)
+				var sfp []uint64
+				for _, p := range ps {
+					if ok, _, _ := ch.App.ConcentratedLiquidityKeeper.PositionHasActiveUnderlyingLock(ch.Ctx, p.PositionId); ok {
+						sfp = append(sfp, p.PositionId)
+					}
+				}
+				if len(sfp) == 0 {
+					continue
+				}
+				msg, d = &sftypes.MsgAddToConcentratedLiquiditySuperfluidPosition{PositionId: sfp[r.Intn(len(sfp))], Sender: a.Addr.String(), TokenDesired0: c("bar", 1000+r.I64n(100000000)), TokenDesired1: c("uosmo", 1000+r.I64n(100000000))}, "superfluid cl-add"
+			}
+		case 31: // protorev administration
+			adm := g.acc(7)
+			if used[7] && ai != 7 {
+				continue
+			}
+			used[7] = true
+			switch r.Intn(3) {
+			case 0:
+				msg, d = &protorevtypes.MsgSetDeveloperAccount{Admin: adm.Addr.String(), DeveloperAccount: g.acc(r.Intn(8)).Addr.String()}, "protorev developer"
+			case 1:
+				msg, d = &protorevtypes.MsgSetHotRoutes{Admin: adm.Addr.String(), HotRoutes: []protorevtypes.TokenPairArbRoutes{{TokenIn: "foo", TokenOut: "bar", ArbRoutes: []protorevtypes.Route{{StepSize: sdkmath.NewInt(int64(100000 * (1 + r.Intn(50)))), Trades: []protorevtypes.Trade{{Pool: 3, TokenIn: "uosmo", TokenOut: "bar"}, {Pool: 0, TokenIn: "bar", TokenOut: "foo"}, {Pool: 1, TokenIn: "foo", TokenOut: "uosmo"}}}}}}}, "protorev hot routes"
+			default:
+				msg, d = &protorevtypes.MsgSetMaxPoolPointsPerTx{Admin: adm.Addr.String(), MaxPoolPointsPerTx: uint64(5 + r.Intn(40))}, "protorev points"
+			}
+			txs = append(txs, g.sign(adm, msg))
+			ds = append(ds, d)
+			continue
 		case 0, 1:
 			routes := [][]poolmanagertypes.SwapAmountInRoute{
 				{{PoolId: 1, TokenOutDenom: "uosmo"}}, {{PoolId: 1, TokenOutDenom: "uosmo"}, {PoolId: 3, TokenOutDenom: "bar"}}, {{PoolId: 1, TokenOutDenom: "uosmo"}, {PoolId: 3, TokenOutDenom: "bar"}, {PoolId: 2, TokenOutDenom: "foo"}},
@@ -360,7 +567,7 @@ func (g *c19Gen) randomBlock() ([][]byte, []string) {
 			if !have.IsPositive() {
 				continue
 			}
-			msg, d = &lockuptypes.MsgLockTokens{Owner: a.Addr.String(), Duration: []time.Duration{time.Hour, 3 * time.Hour, 7 * time.Hour}[r.Intn(3)], Coins: sdk.NewCoins(sdk.NewCoin("gamm/pool/1", sdkmath.MaxInt(sdkmath.OneInt(), have.QuoRaw(5+r.I64n(20)))))}, "lock"
+			msg, d = &lockuptypes.MsgLockTokens{Owner: a.Addr.String(), Duration: []time.Duration{time.Hour, 3 * time.Hour, 7 * time.Hour, 14 * 24 * time.Hour}[r.Intn(4)], Coins: sdk.NewCoins(sdk.NewCoin("gamm/pool/1", sdkmath.MaxInt(sdkmath.OneInt(), have.QuoRaw(5+r.I64n(20)))))}, "lock"
 		case 9:
 			ls := ch.App.LockupKeeper.GetAccountPeriodLocks(ch.Ctx, a.Addr)
 			if len(ls) == 0 {
@@ -378,11 +585,21 @@ func (g *c19Gen) randomBlock() ([][]byte, []string) {
 			if g.tfDenom == "" {
 				continue
 			}
-			adm := g.acc(3)
-			if used[3] && ai != 3 {
+			am, err := ch.App.TokenFactoryKeeper.GetAuthorityMetadata(ch.Ctx, g.tfDenom)
+			if err != nil || am.Admin == "" {
 				continue
 			}
-			used[3] = true
+			admIdx := -1
+			for i := range ch.Accs {
+				if ch.Accs[i].Addr.String() == am.Admin {
+					admIdx = i
+				}
+			}
+			if admIdx < 0 || (used[admIdx] && admIdx != ai) {
+				continue
+			}
+			used[admIdx] = true
+			adm := g.acc(admIdx)
 			switch r.Intn(3) {
 			case 0:
 				msg, d = &tftypes.MsgMint{Sender: adm.Addr.String(), Amount: c(g.tfDenom, 1+r.I64n(1000000)), MintToAddress: g.acc(r.Intn(8)).Addr.String()}, "tf mint"
@@ -391,7 +608,7 @@ func (g *c19Gen) randomBlock() ([][]byte, []string) {
 			default:
 				msg, d = &tftypes.MsgForceTransfer{Sender: adm.Addr.String(), Amount: c(g.tfDenom, 1+r.I64n(1000)), TransferFromAddress: adm.Addr.String(), TransferToAddress: g.acc(r.Intn(8)).Addr.String()}, "tf force transfer"
 			}
-			txs = append(txs, ch.Tx(adm, msg))
+			txs = append(txs, g.sign(adm, msg))
 			ds = append(ds, d)
 			continue
 		case 12:
@@ -410,6 +627,17 @@ func (g *c19Gen) randomBlock() ([][]byte, []string) {
 				continue
 			}
 			l := ls[r.Intn(len(ls))]
+			if r.Intn(4) > 0 { // prefer a lock that is (un)delegating
+				var sl []lockuptypes.PeriodLock
+				for _, x := range ls {
+					if ch.App.LockupKeeper.HasAnySyntheticLockups(ch.Ctx, x.ID) {
+						sl = append(sl, x)
+					}
+				}
+				if len(sl) > 0 {
+					l = sl[r.Intn(len(sl))]
+				}
+			}
 			switch r.Intn(3) {
 			case 0:
 				msg, d = &sftypes.MsgSuperfluidDelegate{Sender: a.Addr.String(), LockId: l.ID, ValAddr: ch.Vals[r.Intn(len(ch.Vals))].OpAddr.String()}, "superfluid delegate"
@@ -426,10 +654,18 @@ func (g *c19Gen) randomBlock() ([][]byte, []string) {
 		if msg == nil {
 			continue
 		}
-		txs = append(txs, ch.Tx(a, msg))
+		txs = append(txs, g.sign(a, msg))
 		ds = append(ds, d)
 	}
 	return txs, ds
+}
+
+// sign pays the fee in the registered non-native fee token in every fifth transaction (once it is registered)
+func (g *c19Gen) sign(a chain.Account, msgs ...sdk.Msg) []byte {
+	if g.ch.Height > 6 && g.r.Intn(5) == 0 {
+		return g.ch.SignTx(a, chain.DefaultGas, sdk.NewCoins(sdk.NewCoin("foo", sdkmath.NewInt(int64(chain.DefaultGas)))), msgs...)
+	}
+	return g.ch.Tx(a, msgs...)
 }
 
 // ---------------------------------------------------------------- roles
@@ -477,6 +713,9 @@ func c19RunRole(c *vk.Ctx) bool {
 			blk := c19Block{Height: ch.Height, TimeNs: ch.Time.UnixNano(), Descs: ds}
 			if b == 3 {
 				blk.Admin = []string{"superfluid-asset:gamm/pool/1"}
+			}
+			if b == 4 {
+				blk.Admin = []string{"fee-token:foo:1", "distr-records:1,3,4", "superfluid-cl-asset:3"}
 			}
 			c19ApplyAdmin(ch, blk.Admin)
 			for _, t := range txs {
@@ -1042,6 +1281,43 @@ func c19ApplyAdmin(ch *chain.Chain, admin []string) {
 	for _, a := range admin {
 		if d, ok := strings.CutPrefix(a, "superfluid-asset:"); ok {
 			if err := ch.App.SuperfluidKeeper.AddNewSuperfluidAsset(ch.Ctx, sftypes.SuperfluidAsset{Denom: d, AssetType: sftypes.SuperfluidAssetTypeLPShare}); err != nil {
+				panic(fmt.Sprintf("admin %s: %v", a, err))
+			}
+		}
+		if d, ok := strings.CutPrefix(a, "superfluid-cl-asset:"); ok {
+			id, _ := strconv.ParseUint(d, 10, 64)
+			if err := ch.App.SuperfluidKeeper.AddNewSuperfluidAsset(ch.Ctx, sftypes.SuperfluidAsset{Denom: cltypes.GetConcentratedLockupDenomFromPoolId(id), AssetType: sftypes.SuperfluidAssetTypeConcentratedShare}); err != nil {
+				panic(fmt.Sprintf("admin %s: %v", a, err))
+			}
+		}
+		if d, ok := strings.CutPrefix(a, "fee-token:"); ok {
+			// what a passed fee-token proposal does: <denom>:<pool id>
+			f := strings.Split(d, ":")
+			id, _ := strconv.ParseUint(f[1], 10, 64)
+			if err := ch.App.TxFeesKeeper.SetFeeTokens(ch.Ctx, []txfeestypes.FeeToken{{Denom: f[0], PoolID: id}}); err != nil {
+				panic(fmt.Sprintf("admin %s: %v", a, err))
+			}
+		}
+		if d, ok := strings.CutPrefix(a, "distr-records:"); ok {
+			// what a passed pool-incentives proposal does: minted pool incentives go to the longest-duration gauge of these pools
+			var recs []poolincentivestypes.DistrRecord
+			durs := ch.App.PoolIncentivesKeeper.GetLockableDurations(ch.Ctx)
+			for k, ps := range strings.Split(d, ",") {
+				id, _ := strconv.ParseUint(ps, 10, 64)
+				var gid uint64
+				var err error
+				if pool, perr := ch.App.PoolManagerKeeper.GetPool(ch.Ctx, id); perr == nil && pool.GetType() == poolmanagertypes.Concentrated {
+					gid, err = ch.App.PoolIncentivesKeeper.GetPoolGaugeId(ch.Ctx, id, ch.App.IncentivesKeeper.GetEpochInfo(ch.Ctx).Duration)
+				} else {
+					gid, err = ch.App.PoolIncentivesKeeper.GetPoolGaugeId(ch.Ctx, id, durs[len(durs)-1-k%2])
+				}
+				if err != nil {
+					panic(fmt.Sprintf("admin %s: pool %d: %v", a, id, err))
+				}
+				recs = append(recs, poolincentivestypes.DistrRecord{GaugeId: gid, Weight: sdkmath.NewInt(int64(10 + 7*k))})
+			}
+			sort.Slice(recs, func(i, j int) bool { return recs[i].GaugeId < recs[j].GaugeId })
+			if err := ch.App.PoolIncentivesKeeper.ReplaceDistrRecords(ch.Ctx, recs...); err != nil {
 				panic(fmt.Sprintf("admin %s: %v", a, err))
 			}
 		}
